@@ -782,6 +782,45 @@ pub fn rand_table(ctx: &mut Ctx, letters: &[&str], n: usize) -> Vec<(Vec<u8>, u3
     table
 }
 
+/// random binary bracketing of `w`: the merges bottom-up (the last one is `w` itself)
+fn bracketing(ctx: &mut Ctx, w: &[u8]) -> Vec<Vec<u8>> {
+    if w.len() < 2 {
+        return vec![];
+    }
+    let k = ctx.rng.random_range(1..w.len());
+    let mut v = bracketing(ctx, &w[..k]);
+    v.extend(bracketing(ctx, &w[k..]));
+    v.push(w.to_vec());
+    v
+}
+
+/// a table in which a word has two derivations: its own entry is learned early through one bracketing, the
+/// intermediate tokens of another bracketing are learned later, and that second path is entered first because its
+/// first merge has the lowest id — so a LOW-id merge becomes possible only after a HIGH-id merge was applied
+pub fn overlap_table(ctx: &mut Ctx) -> (Vec<(Vec<u8>, u32)>, Vec<u8>) {
+    let letters = b"abcdef";
+    let n = ctx.rng.random_range(4..=6);
+    let w: Vec<u8> = letters[..n].to_vec();
+    let a = bracketing(ctx, &w);
+    let b = bracketing(ctx, &w);
+    let mut order: Vec<Vec<u8>> = vec![];
+    let mut push = |order: &mut Vec<Vec<u8>>, t: &Vec<u8>| {
+        if !order.contains(t) {
+            order.push(t.clone());
+        }
+    };
+    if let Some(first) = b.first() {
+        push(&mut order, first);
+    }
+    for t in &a {
+        push(&mut order, t);
+    }
+    for t in &b {
+        push(&mut order, t);
+    }
+    (order.into_iter().enumerate().map(|(i, t)| (t, i as u32)).collect(), w)
+}
+
 pub fn adversarial_tables() -> Vec<Vec<(Vec<u8>, u32)>> {
     let t = |l: &[&str]| l.iter().enumerate().map(|(i, s)| (s.as_bytes().to_vec(), i as u32)).collect::<Vec<_>>();
     vec![
@@ -797,6 +836,9 @@ pub fn adversarial_tables() -> Vec<Vec<(Vec<u8>, u32)>> {
         t(&[" a", " ab", "ab", " abab"]),
         t(&["ab", "cab", "ca"]),
         t(&["bc", "ab", "cd", "abcd"]),
+        // a low-id merge (abcd = ab+cd) that becomes possible only after a high-id merge (abc = a+bc)
+        t(&["bc", "ab", "cd", "abcd", "abc"]),
+        t(&["cd", "ab", "abcd", "bcd", "abc"]),
     ]
 }
 
@@ -832,6 +874,28 @@ pub fn run_bpe(ctx: &mut Ctx, c03: bool) {
         let n = ctx.rng.random_range(0..=if i % 5 == 0 { 40 } else { 12 });
         let t = rand_table(ctx, letter_sets[ls], n);
         tables.push((t, ls));
+    }
+    if c03 {
+        // two-derivation tables with the word that has both derivations, and affixed variants
+        let n_ov = ctx.budget(40, 3000);
+        for _ in 0..n_ov {
+            let (t, w) = overlap_table(ctx);
+            for variant in 0..3 {
+                let mut word = w.clone();
+                if variant == 1 {
+                    word.insert(0, b'a' + ctx.rng.random_range(0..6));
+                } else if variant == 2 {
+                    word.push(b'a' + ctx.rng.random_range(0..6));
+                }
+                let mut v = vec![t.len() as u64];
+                for (b, id) in &t {
+                    enc_bytes(&mut v, b);
+                    v.push(*id as u64);
+                }
+                enc_bytes(&mut v, &word);
+                ctx.case("bpeword", &v);
+            }
+        }
     }
     for (t, ls) in tables {
         let letters = letter_sets[ls];
